@@ -41,6 +41,8 @@ func main() {
 	hooks := flag.String("hooks", "/verif/hooks", "directory with vhook/ and vexport/ sources")
 	out := flag.String("out", "", "output directory")
 	mode := flag.String("mode", "light", "light|full")
+	var adds multi
+	flag.Var(&adds, "add", "virtualpath=realpath: extra overlay entry (repeatable)")
 	flag.Parse()
 	if *out == "" {
 		fatal("missing -out")
@@ -58,6 +60,13 @@ func main() {
 				replace[filepath.Join(absRepo, pkg, e.Name())] = src
 			}
 		}
+	}
+	for _, a := range adds {
+		kv := strings.SplitN(a, "=", 2)
+		if len(kv) != 2 {
+			fatal("bad -add %q", a)
+		}
+		replace[kv[0]] = kv[1]
 	}
 	var sites []site
 	unsupported := []string{}
@@ -144,6 +153,11 @@ func stripDocs(f *ast.File) {
 		return true
 	})
 }
+
+type multi []string
+
+func (m *multi) String() string     { return strings.Join(*m, ",") }
+func (m *multi) Set(v string) error { *m = append(*m, v); return nil }
 
 type rewriter struct {
 	fset        *token.FileSet
